@@ -728,7 +728,14 @@ def run(ctx, replay=None):
         "dask integer arrays, value scalar / 0-d / NumPy / dask / computed from x; ufunc out= with and without where=; reduction out=; _chunks "
         "setter; compute_chunk_sizes) -> read (compute / persist / block by block under the advertised keys / np.asarray / dask.compute), "
         "1-3 rounds, with snapshots (x+k, x.copy()) that must keep their values; grid of key kind x materialization kind in every run; a "
-        "failure needs the twin script without the materializations to agree with NumPy"
+        "failure needs the twin script without the materializations to agree with NumPy. "
+        "History x consumer stream (harness/props_ext/c09_consumers.py): one shared sub-expression S = wrappers(selectors(producer)) "
+        "(producers / selectors of c02_grid, steered to nested chunkings whose coarse unification a pushed selector changes), histories of 2-4 events "
+        "over {compute S alone, S.optimize(), S.simplify(), graph key by key, persist, sum / +1 / slice / .T over S, .blocks[::-1] / [last] / [0] / [list], "
+        "map_blocks(block-relative / block_info / block_id / two inputs), blockwise(align_arrays=False), to_delayed grid, plain and grid consumer in one "
+        "dask.compute}: every (non-grid event, grid consumer) pair in every run (a quarter in the opposite order) + random histories, each event with "
+        "optimize-graph on / off and S the same object / rebuilt with the old one alive / rebuilt after dropping it; NumPy oracle along the chunks S "
+        "advertises when built; a failing event is re-run in fresh interpreters (the event alone must be right there, the reported minimal history must fail there)"
     )
     ctx.assumptions = [
         "the Lean theorems are about an abstract system: per-rule soundness for every configuration value (RuleSound) and "
@@ -751,6 +758,10 @@ def run(ctx, replay=None):
             from harness.props_ext import c09_inplace
 
             c09_inplace.replay(ctx, case)
+        elif case.get("kind") == "consumers":  # history x consumer stream (harness/props_ext/c09_consumers.py)
+            from harness.props_ext import c09_consumers
+
+            c09_consumers.replay(ctx, case)
         elif case.get("kind") == "config":
             for sig, detail in run_config_case(ctx, case) or []:
                 ctx.fail(sig, case, detail)
@@ -809,6 +820,15 @@ def run(ctx, replay=None):
     from harness.props_ext import c09_inplace
 
     c09_inplace.run_stream(ctx, ctx.scale(60, 900), ctx.scale(10, 90))
+
+    # ---------------- history x consumer: one shared sub-expression S (a selector over an elemwise of differently chunked
+    # operands / rechunk / concatenate / map_overlap / cumsum, under 0-2 elementwise wrappers) met alone, optimized, persisted,
+    # under plain consumers and under grid-sensitive consumers (.blocks[...], map_blocks with block_info / block_id,
+    # blockwise(align_arrays=False), to_delayed) in one process, in every order, rebuilt or the same object, optimize-graph
+    # on / off; oracle = NumPy along the chunks S advertises (harness/props_ext/c09_consumers.py)
+    from harness.props_ext import c09_consumers
+
+    c09_consumers.run_stream(ctx, ctx.scale(110, 3000), ctx.scale(5.5, 120))
 
     # ---------------- clean state vs warm: the same programs computed first in a clean state
     for k, hist in enumerate(epoch[: ctx.scale(6, 40)]):
